@@ -1174,7 +1174,7 @@ func (m *c42Machine) bumpOK(old c42Entry, x *c42Tx) bool {
 
 func (m *c42Machine) actAdd() {
 	x := m.genTx()
-	viaAdd := rapid.IntRange(0, 24).Draw(m.rt, "viaFullAdd") == 0
+	viaAdd := rapid.IntRange(0, 79).Draw(m.rt, "viaFullAdd") == 0
 	m.doAdd(x, viaAdd)
 }
 
@@ -1729,6 +1729,7 @@ func c42ScanQueue(img *crashfs.Snapshot) (per [c42NAcct]map[common.Hash]bool) {
 func (m *c42Machine) abruptReopen(img *crashfs.Snapshot, note string, pre, post c42PreRestart, boundary bool, inflight map[common.Hash]bool) {
 	m.c.Fault()
 	_ = m.pool.Close()
+	os.RemoveAll(m.dir)
 	m.dir = m.newDir()
 	if err := img.WriteTo(m.dir); err != nil {
 		m.rt.Fatalf("VERIF-HARNESS-BUG: writing image: %v", err)
@@ -1828,8 +1829,9 @@ func (m *c42Machine) actAbruptMidOp() {
 	kind := rapid.SampledFrom([]string{"add", "add", "newHead", "reorg"}).Draw(rt, "crashOp")
 	mode := rapid.SampledFrom([]string{"event", "event", "cut"}).Draw(rt, "crashMode")
 	m.armed, m.evCount, m.image, m.cutBefore = mode, 0, nil, nil
-	m.crashAt = rapid.IntRange(1, 4).Draw(rt, "crashAtEvent")
+	m.crashAt = rapid.SampledFrom([]int{1, 1, 1, 2, 2, 3}).Draw(rt, "crashAtEvent")
 	if mode == "cut" {
+		m.crashAt = 1
 		m.cutK = rapid.SampledFrom([]float64{0, 0.000005, 0.001, 0.01, 0.5, 0.97, 0.999999}).Draw(rt, "cutFraction")
 		m.cutZero = rapid.Bool().Draw(rt, "cutZeroExtend")
 	}
@@ -1887,9 +1889,39 @@ func (m *c42Machine) actAbruptMidOp() {
 
 // ---- driver ----
 
+// c42ScratchBase returns the directory below which the per-case datadirs live: a
+// memory-backed filesystem when available (pool Init creates and fsyncs ~30 shelf
+// files per fresh datadir, which dominates wall time on a loaded disk), else TMPDIR.
+// Leftovers of dead processes are removed.
+func c42ScratchBase() string {
+	const shm = "/dev/shm"
+	if fi, err := os.Stat(shm); err != nil || !fi.IsDir() || os.Getenv("VERIF_C42_NO_SHM") != "" {
+		return ""
+	}
+	probe, err := os.MkdirTemp(shm, "verif-c42-probe-")
+	if err != nil {
+		return ""
+	}
+	os.RemoveAll(probe)
+	c42ScratchOnce.Do(func() {
+		ents, _ := os.ReadDir(shm)
+		for _, e := range ents {
+			var pid int
+			if n, _ := fmt.Sscanf(e.Name(), "verif-c42-%d-", &pid); n == 1 && pid > 0 {
+				if _, err := os.Stat(fmt.Sprintf("/proc/%d", pid)); os.IsNotExist(err) {
+					os.RemoveAll(filepath.Join(shm, e.Name()))
+				}
+			}
+		}
+	})
+	return shm
+}
+
+var c42ScratchOnce sync.Once
+
 func c42Run(t *testing.T, rt *rapid.T, st *vs.S) {
 	c := st.Case()
-	root, err := os.MkdirTemp("", "c42-")
+	root, err := os.MkdirTemp(c42ScratchBase(), fmt.Sprintf("verif-c42-%d-", os.Getpid()))
 	if err != nil {
 		rt.Fatalf("VERIF-HARNESS-BUG: %v", err)
 	}
@@ -1940,7 +1972,7 @@ func c42Run(t *testing.T, rt *rapid.T, st *vs.S) {
 			m.actAbruptMidOp()
 		}
 		m.checkInvariants()
-		m.checkViews(s%5 == 4)
+		m.checkViews(s%6 == 5)
 	}
 	if len(m.res.breaches) > 0 {
 		c.Class("reserver-breach")
